@@ -364,6 +364,10 @@ func checkC02(c *Ctx, r *Report) {
 	// (4) "a wrong RAKP 2 code yields the incorrect-password error": through every exported
 	// entry point above the constructor, too (NewSession → NewV2Session)
 	checkSentinelReachesCaller(c, r, "ErrIncorrectPassword")
+
+	// (5) "under the caller's password (and BMC key)": the options reach the constructor as the
+	// caller passed them
+	checkOptionsUnaltered(c, r)
 }
 
 // classifyTranscript0 is classifyTranscript guarded for functions that are not transcript-shaped.
